@@ -1096,7 +1096,11 @@ class Sim:
             if fam in ("magnet", "triangle"):
                 leaves = leaves + ["magnetization_size"]
             # aim at leaves that objects have not set themselves and at ones they have
-            items = self._items(rng, cfg, leaves, prefer=[k for k in written_obj if k in leaves], none_ok=True)
+            # (no None here: un-setting a *default* leaves no value in any layer for leaves without a base
+            #  default, e.g. dipole.size, and the drawing code is entitled to one - a soak run showed show() raising
+            #  TypeError after `defaults.display.style.dipole.size = None`; that is the user removing a required
+            #  default, not a property violation.  Objects do un-set their own leaves: obj_set.)
+            items = self._items(rng, cfg, leaves, prefer=[k for k in written_obj if k in leaves])
             op = {"op": "def_set", "fam": fam, "notation": rng.choice(cfg["def_notations"]), "items": items}
             if cfg["invalid"]:
                 op["invalid"] = self._invalid(rng, items, self._leaves(fl))
